@@ -7,10 +7,18 @@ import NixModel.Proofs.RolesLookup
 namespace Nix.St
 open Store
 
+def Role.isEnt : Role → Bool
+  | .ent _ => true
+  | _ => false
+
+theorem Role.isEnt_iff {r : Role} (h : r.isEnt = true) : ∃ k, r = .ent k := by
+  cases r <;> simp [Role.isEnt] at h
+  exact ⟨_, rfl⟩
+
 /-- `WT` does not look at the roles of objects that do not exist -/
 theorem WT.congr {s : Store} {ρ ρ' : ObjId → Role} (h : WT s ρ) (ha : Agree s ρ ρ') : WT s ρ' := by
   have h3 := h.len
-  refine ⟨h.len, ?_, ?_, ?_, ?_, ?_, h.uniq⟩
+  refine ⟨h.len, ?_, ?_, ?_, ?_, ?_, h.uniq, ?_⟩
   · rw [ha 0 (by unfold ObjId at *; omega)]; exact h.r0
   · rw [ha 1 (by unfold ObjId at *; omega)]; exact h.r1
   · rw [ha 2 (by unfold ObjId at *; omega)]; exact h.r2
@@ -22,6 +30,12 @@ theorem WT.congr {s : Store} {ρ ρ' : ObjId → Role} (h : WT s ρ) (ha : Agree
     have := h.link o l hl
     rw [ha o hlt, ha l.2 this.1]; exact this
   · intro o ho; rw [ha o ho]; exact h.grp o ho
+  · intro o l hl
+    have hlt : o < s.objs.length := by
+      cases hx : s.obj? o with
+      | none => simp [linksOf, hx] at hl
+      | some x => exact obj?_lt hx
+    rw [ha o hlt, ha l.2 (h.link o l hl).1]; exact h.mono o l hl
 
 theorem WT.initNamed {s : Store} {ρ : ObjId → Role} (h : WT s ρ) (g : ObjId) (id type name created : String) :
     WT (initNamed s g id type name created).1 ρ := by
@@ -42,12 +56,12 @@ theorem lookup_filter_ne (l : List (String × ObjId)) (n : String) : (l.filter (
 
 /-- replace-link setters: drop the group link of that name, then link the (schema-conform) target -/
 theorem WT.replaceLink {s : Store} {ρ : ObjId → Role} (h : WT s ρ) (g : ObjId) (f : String) (t : ObjId)
-    (ht : t < s.objs.length) (hr : childRole (ρ g) f = some (ρ t)) (hnp : ρ t ≠ .prop) :
+    (ht : t < s.objs.length) (hr : childRole (ρ g) f = some (ρ t)) (hnp : ρ t ≠ .prop) (hx : contains (ρ g) (ρ t) = false) :
     WT ((s.removeGroup g f).addLink g f t) ρ := by
   have h1 := h.removeGroup g f
   have hlen : (s.removeGroup g f).objs.length = s.objs.length := by
     unfold Store.removeGroup; split <;> simp [Store.unlink, length_modifyObj]
-  refine h1.addLink g f t (by rw [hlen]; exact ht) hr ?_
+  refine h1.addLink g f t (by rw [hlen]; exact ht) hr ?_ (fun hc => by rw [hx] at hc; cases hc)
   by_cases hh : s.hasGroup g f = true
   · left
     simp only [Store.removeGroup, hh, if_true, child?, linksOf, Store.unlink, obj?_modifyObj, if_true]
@@ -113,9 +127,9 @@ def Op.kinded (s : Store) (ρ : ObjId → Role) : Op → Prop
   | .createMultiTag b .. => b < s.objs.length ∧ ρ b = .ent .B
   | .createProperty sec .. => sec < s.objs.length ∧ ρ sec = .ent .S
   | .createFeature tag b .. => tag < s.objs.length ∧ (ρ tag = .ent .T ∨ ρ tag = .ent .M) ∧ b < s.objs.length ∧ ρ b = .ent .B
-  | .setSectionLink holder f _ => childRole (ρ holder) f = some (.ent .S)
-  | .setArrayLink holder b f _ => childRole (ρ holder) f = some (.ent .A) ∧ ρ b = .ent .B
-  | .setExtents mt b _ => childRole (ρ mt) "extents" = some (.ent .A) ∧ ρ b = .ent .B
+  | .setSectionLink holder f _ => (ρ holder).isEnt = true ∧ childRole (ρ holder) f = some (.ent .S)
+  | .setArrayLink holder b f _ => (ρ holder).isEnt = true ∧ childRole (ρ holder) f = some (.ent .A) ∧ ρ b = .ent .B
+  | .setExtents mt b _ => (ρ mt).isEnt = true ∧ childRole (ρ mt) "extents" = some (.ent .A) ∧ ρ b = .ent .B
   | .addReference tag b _ => tag < s.objs.length ∧ childRole (ρ tag) "references" = some (.lcont .A) ∧ b < s.objs.length ∧ ρ b = .ent .B
   | .addSource holder b _ => holder < s.objs.length ∧ childRole (ρ holder) "sources" = some (.lcont .O) ∧ b < s.objs.length ∧ ρ b = .ent .B
   | .addMember grp b k .. => grp < s.objs.length ∧ ρ grp = .ent .G ∧ b < s.objs.length ∧ ρ b = .ent .B ∧ bKind k = gKind k
